@@ -15,7 +15,10 @@ RULE = ("(1) EXHAUSTIVE: every string over the 14 syntax symbols `{ } ( ) \\ : <
         "leading zeros) as min and max width of leaves and groups - constructed only when the value exceeds 64; "
         "(4) well-formed AST followed by junk (unknown formatter, unclosed brace/parenthesis, stray specials, "
         "bad width, invalid strftime directive, invalid zone, random syntax strings): the AST's meaning must be a "
-        "prefix of the output; (5) invalid / multi-piece zone arguments and invalid strftime formats. Every call "
+        "prefix of the output; (5) invalid / multi-piece zone arguments and invalid strftime formats; (6) rejected "
+        "texts of 24-100 bytes made of 0-7 ASCII letters followed by 12 (24) copies of a 2-, 3- or 4-byte character "
+        "as unknown formatter name, zone, date format, MDC key, unterminated formatter: every byte offset from 8 "
+        "to 70 falls inside some character. Every call "
         "runs under catch_unwind on its own thread; patterns containing a digit run of value > 64 are "
         "constructed but not encoded. non-trivial = the pattern contains at least one syntax character; "
         "distinct = distinct case line")
@@ -129,6 +132,18 @@ def cases(rng, tier):
             s = "{d(%s)(%s)}|" % (f, z)
             out.append(mk_str(s, k, envs[k % len(envs)]))
             k += 1
+    # (6) long rejected texts: the text echoed in an error marker (unknown formatter name, invalid zone,
+    # invalid date format, unexpected-character messages) is long and made of 1/2/3/4-byte characters so
+    # that a character straddles every byte offset from 8 to 70 (a marker that shortens or slices the
+    # echoed text at a fixed byte count must still be a visible, panic-free marker)
+    units = ["é", "ñ", "日", "€", "𝄞", "ß"]
+    for n_ascii in range(0, 8):
+        for u in units:
+            body = "a" * n_ascii + u * (12 if tier == "quick" else 24)
+            for tmpl in ("{%s}", "x{%s}y", "{d(%%Y)(%s)}", "{d(%%Q%s)}", "{m}{%s", "{X(%s)}", "{%s(m)}"):
+                s6 = tmpl.replace("%s", body).replace("%%", "%")
+                out.append(mk_str(s6, k, envs[k % len(envs)]))
+                k += 1
     # (2) mutations, (4) prefix + junk
     n_mut = 3000 if tier == "quick" else 40000
     n_pre = 1200 if tier == "quick" else 12000
